@@ -311,6 +311,13 @@ static void run_script (const Container *c, int sub, int ch, const Action *acts,
 			for (int i = nacts - late ; i < nacts ; i++) { accepted [i] = apply (sf, c, &acts [i], &scratch, ch) ; vl_note ("late set %s -> %d", kind_name [acts [i].kind], accepted [i]) ; }
 			meta_free (&scratch) ;
 			}
+		/* an item set before the data and again after it: the early or the late value may come back, nothing is demanded of that item */
+		for (int i = nacts - late ; i < nacts ; i++)
+			switch (acts [i].kind)
+			{	case K_STR : free (m.str [acts [i].sub]) ; m.str [acts [i].sub] = NULL ; break ;
+				case K_BEXT : m.have_bext = 0 ; break ; case K_CART : m.have_cart = 0 ; break ; case K_CUE : m.have_cue = 0 ; break ;
+				case K_INST : m.have_inst = 0 ; break ; default : m.have_chmap = 0 ; break ;
+				}
 		if (vl_write (sf, T_SHORT, 1, au + 7 * ch, NFRAMES - 7) != NFRAMES - 7) vl_violation (rt_sig ("%s|late-write-failed", rs), "audio write failed after a late metadata set: %s", sf_strerror (sf)) ;
 		}
 	INLIB (rc = sf_close (sf)) ;
@@ -384,6 +391,21 @@ static void run_c12 (void)
 						run_script (c, sub, 2, all, 5, 0, rs) ; run_script (c, sub, 2, all + 5, 5, 0, rs) ;
 						}
 					vl_end (1, 0) ;
+					}
+			/* (4) an item set before the data and set again after the first write (shorter, equal, longer): the header of the finished file
+			** may not move the audio, and the other item set before the data must survive */
+			for (int kind = 0 ; kind < K_NKINDS ; kind++)
+				for (int sidx = 0 ; sidx < (kind == K_STR ? NSTR : 1) ; sidx++)
+				{	static const int sv [4] = { 0, 2, 3, 6 } ;	/* texts of 1, 3, 127, 256 bytes */
+					int nv = kind == K_STR ? 4 : 3 ;
+					if (kind == K_STR && str_types [sidx] == SF_STR_SOFTWARE) nv = 2 ;
+					for (int ea = 0 ; ea < nv ; ea++) for (int la = 0 ; la < nv ; la++)
+						if (vl_case ("C12 again fmt=%s/%s kind=%s%s%s early=%d late=%d", c->name, sub_name (sub), kind_name [kind], kind == K_STR ? ":" : "", kind == K_STR ? str_names [sidx] : "", ea, la))
+						{	int other = (kind == K_STR && str_types [sidx] == SF_STR_TITLE) ? 1 : 0 ; int ch = 2, map [8] ;
+							Action acts [3] = { { kind, sidx, kind == K_STR ? sv [ea] : ea }, { K_STR, other, 4 }, { kind, sidx, kind == K_STR ? sv [la] : la } } ;
+							if (kind == K_CHMAP) make_chmap (map, ea, c, &ch) ;
+							vl_root_count (c->name) ; run_script (c, sub, ch, acts, 3, 1, rs) ; vl_end (supported (c, &acts [0]), 0) ;
+							}
 					}
 			if (vl_case ("C12 replace fmt=%s/%s", c->name, sub_name (sub)))
 			{	Action acts [4] = { { K_STR, 0, 3 }, { K_BEXT, 0, 1 }, { K_STR, 0, 5 }, { K_BEXT, 0, 4 } } ;
